@@ -16,6 +16,7 @@ import (
 	client "github.com/liftbridge-io/liftbridge-api/v2/go"
 
 	proto "github.com/liftbridge-io/liftbridge/server/protocol"
+	"github.com/liftbridge-io/liftbridge/server/verifhook"
 )
 
 const (
@@ -1523,6 +1524,9 @@ func (m *metadataAPI) removeStream(stream *stream, epoch uint64) {
 		}
 	}
 	m.startGoroutine(func() {
+		if verifhook.Enabled {
+			verifhook.Point("meta.streamDeletedAsync", m.config.Clustering.ServerID, stream.GetName(), epoch) // nolint: errcheck
+		}
 		m.consumerGroupsMu.RLock()
 		for _, group := range m.consumerGroups {
 			group.StreamDeleted(stream.GetName(), epoch)
